@@ -160,6 +160,9 @@ class C07(flow.Spec):
                 return False
             if d["ok"] == "0" and (d["v"] != "-" or d["same"] != "1" or d["chunks"]):
                 return False
+            # all or nothing: a request with a statement reported as failed has no effect at all
+            if d.get("errs", "0") != "0" and (d["v"] != "-" or d["same"] != "1" or d["chunks"]):
+                return False
             if d["v"] != "-":
                 if int(d["v"]) != prev + 1:
                     return False
